@@ -774,6 +774,9 @@ func (e *Engine) store(c *Ctx, p PtrV, v Value, what string) {
 			continue
 		}
 		o := c.S.Heap[a.Obj]
+		if e.frozen > 0 && o.Epoch < e.frozen {
+			e.Obls = append(e.Obls, Obligation{Kind: "frozen-write", ID: "store to memory that existed at the freeze, in " + what, Cond: And(c.S.PC, a.G)})
+		}
 		materialise(o)
 		old := getPath(o.Val, a.Path)
 		nv := v
@@ -828,6 +831,9 @@ func (e *Engine) mapUpdate(c *Ctx, m MapV, k, v Value, tomb bool) {
 			continue
 		}
 		o := c.S.Heap[a.Obj]
+		if e.frozen > 0 && o.Epoch < e.frozen {
+			e.Obls = append(e.Obls, Obligation{Kind: "frozen-write", ID: "map update on a map that existed at the freeze", Cond: And(c.S.PC, a.G)})
+		}
 		g := a.G
 		if len(m.Alts) == 1 {
 			g = TTrue
